@@ -111,6 +111,7 @@ type c12Runner struct {
 	peer    *Peer
 	backend *vBackend
 	next    map[string]int64
+	seen    map[string][]int64 // ids ever handed out per table (lookups by id after every step)
 	notes   []string
 }
 
@@ -165,9 +166,35 @@ func c12InfoList(val interface{}) []c12Info {
 	return res
 }
 
+// observeTable reads the table twice: the complete table, and every id ever handed out on its own with
+// `Filter: id = n` (answered through the primary key index). Where the two disagree about an id the observation
+// gets an entry no model state has, so the case is reported.
 func (r *c12Runner) observeTable(t string) []c12Entry {
+	res := r.readTable(t, "")
+	for _, id := range r.seen[t] {
+		dump := []c12Entry{}
+		for i := range res {
+			if res[i].ID == id {
+				dump = append(dump, res[i])
+			}
+		}
+		byID := r.readTable(t, fmt.Sprintf("Filter: id = %d\n", id))
+		same := len(dump) == len(byID)
+		for i := 0; same && i < len(dump); i++ {
+			same = fmt.Sprintf("%v", dump[i]) == fmt.Sprintf("%v", byID[i])
+		}
+		if !same {
+			r.note("%s: id %d: table scan has %d row(s), lookup by id %d", c12TableName(t), id, len(dump), len(byID))
+			res = append(res, c12Entry{ID: id, Host: "LOOKUP-BY-ID-DIFFERS", Author: fmt.Sprintf("scan %d lookup %d", len(dump), len(byID))})
+		}
+	}
+
+	return res
+}
+
+func (r *c12Runner) readTable(t, filter string) []c12Entry {
 	rows := r.query("GET " + c12TableName(t) + "\nColumns: id host_name service_description author comment " +
-		strings.Join(c12NumNames(t), " ") + "\nOutputFormat: json\n\n")
+		strings.Join(c12NumNames(t), " ") + "\n" + filter + "OutputFormat: json\n\n")
 	res := make([]c12Entry, 0, len(rows))
 	for _, row := range rows {
 		if len(row) != 5+c12NumCols {
@@ -225,6 +252,10 @@ func (r *c12Runner) apply(op *c12Op) bool {
 			return false
 		}
 		r.next[op.Table] = ent.ID + 1
+		if r.seen == nil {
+			r.seen = map[string][]int64{}
+		}
+		r.seen[op.Table] = append(r.seen[op.Table], ent.ID)
 		vals := map[string]interface{}{"id": float64(ent.ID), "host_name": ent.Host, "service_description": ent.Svc,
 			"author": ent.Author, "comment": ent.Comment}
 		nums := c12Nums(ent)
